@@ -140,6 +140,7 @@ Fixpoint pairs_of (l : list bytes) : option (list (bytes * bytes)) :=
 Definition popcount_byte (b : byte) : Z :=
   fold_left (fun acc k => acc + (if N.testbit (b2n b) k then 1 else 0)) [0;1;2;3;4;5;6;7]%N 0.
 Definition bit_at (v : bytes) (off : Z) : bool :=
+  if (off <? 0) || (off / 8 >=? Z.of_nat (length v)) then false else   (* past the end: 0, decided on Z *)
   match nth_error v (Z.to_nat (off / 8)) with
   | Some b => N.testbit (b2n b) (N.of_nat (Z.to_nat (7 - off mod 8)))
   | None => false
@@ -798,7 +799,9 @@ Definition spec_step (now : Z) (name : bytes) (args : list bytes) (oracle : list
         | LWrong => err d
         | LMissing => SR d SNull
         | LVal l _ => let j := if i <? 0 then Z.of_nat (length l) + i else i in
-                      SR d (if j <? 0 then SNull else obulk (nth_error l (Z.to_nat j)))
+                      (* an index past the end is nil; decided on Z so that a hostile index (2^62) is never
+                         turned into a unary numeral *)
+                      SR d (if (j <? 0) || (j >=? Z.of_nat (length l)) then SNull else obulk (nth_error l (Z.to_nat j)))
         end
     end
   else if is [76;82;65;78;71;69] then (* LRANGE *)
